@@ -17,7 +17,7 @@ import struct
 
 from mc import core, explore, lap
 from mc.world import World, Monitor
-from mc.pair import DeliveryMonitor, app_send, payload, quiescent
+from mc.pair import DeliveryMonitor, app_send, payload, quiescent, add_bystander
 from mpgameserver.connection import Packet, ConnectionStatus, ConnectionBase, FragmentSender
 
 PROPERTY = "C05"
@@ -110,7 +110,7 @@ def scenario(params, ch):
     if hist:
         Packet.setMTU(hist)       # the process configured another MTU before (setMTU writes process-wide state)
     try:
-        w = World(order=order, latency=latency, chooser=ch, monitors=[mon, watch], mtu=mtu, dt=(1.0 / 60 if "dt60" in opts else 0.02 if "dt50" in opts else 1.0 / 64),
+        w = World(n_clients=(2 if "by" in opts else 1), order=order, latency=latency, chooser=ch, monitors=[mon, watch], mtu=mtu, dt=(1.0 / 60 if "dt60" in opts else 0.02 if "dt50" in opts else 1.0 / 64),
                   server_cfg=({"setKeepAliveInterval": ka} if ka else None), client_cfg=({"setKeepAliveInterval": ka} if ka else None))
     except BaseException:
         watch.close()
@@ -121,6 +121,9 @@ def scenario(params, ch):
         if "wrap" in opts:
             w.run(4)
             w.preset_near_wrap()
+        if "by" in opts:
+            add_bystander(w, mon)     # a second client of the same server exchanging traffic of every kind, perfect link
+            w.run(3)
         data = payload(1, size)
         w.fates = list(fates)
         bidi = other[1] if isinstance(other, (tuple, list)) and other[0] == "bidi" else None
@@ -429,6 +432,11 @@ def params_list(tier):
                     if tier == "quick" and (b[2] != 200 or mtu != 1500):
                         continue
                     out.append((api, size, mtu, ("drop", "delay8"), b, "frag", "cs", 1, 10))
+    # a second client of the same server exchanges traffic of every kind all the time
+    for api in APIS:
+        for size in ((40, 2500) if tier == "quick" else (0, 40, 1434, 1435, 2500, 5000)):
+            for b in (None, ("data", 0, 20), ("s2c", 0, 13) if api[0] == "c" else ("c2s", 0, 13)):
+                out.append((api, size, 1500, ("drop",), b, False, "cs|by", 1, 8))
     # the MTU was configured to something else before (512 then 1000, 512 then 512, 576 then 800, 1000 then 512)
     for api in ("c.send_guaranteed", "s.send_guaranteed"):
         for h, mtu in ((512, 1000), (512, 512), (576, 800), (1000, 512), (512, 1095)):
